@@ -177,10 +177,16 @@ theorem runPassDir_keepsIf (OK : List Instr → Prop) (Q : Seg → Prop) (hQ : A
   split at e
   · cases e; exact h
   · simp only [] at e
-    refine runPass_keepsIf OK Q hQ p hp _ fuel ?_ e
-    split
-    · exact hR _ _ h
-    · exact h
+    split at e
+    · cases e
+    · split at e
+      · cases e
+      · split at e
+        · cases e; exact h
+        · refine runPass_keepsIf OK Q hQ p hp _ fuel ?_ e
+          split
+          · exact hR _ _ h
+          · exact h
 
 theorem runRange_keepsIf (OK : List Instr → Prop) (Q : Seg → Prop) (hQ : ActionKeepsIf OK Q) (hR : ReverseKeeps Q) (passes : Array PassT) (c : Ctx) (lo hi fuel : Nat)
     (hpo : ∀ k, k < hi - lo → PassOK OK (passes.getD (lo + k) default)) (h : Q c.seg)
